@@ -1,5 +1,5 @@
 # replay of a bounded stand-in violation (C16): re-run native/c16_states.py
 import sys
-print('n=2 pure=True cat: quad_expectation(1,0.0) = [0.62239, 2.27449] on bosonic, [-0.02294, 1.93709] on fock')
+print('n=2 pure=False cat-complex: quad_expectation(1,0.8) = [0.51137, 0.91954] on bosonic, [0.51137, 1.84019] on fock')
 print('REPLAY-VIOLATION')
 sys.exit(1)
